@@ -1331,6 +1331,12 @@ def mutations(doc: dict, instance: Any) -> list[Mutation]:
     out = []
     for m in raw:
         errs = list(v.iter_errors(m.instance))
+        if len(errs) > 1 and m.keyword == "required" and all(
+            e.validator == "required" and list(e.absolute_path) == m.path[:-1] and e.message.startswith(repr(m.path[-1]) + " is a required")
+            for e in errs
+        ):
+            # the same member required by several parts of an allOf (the class and one of its bases): one violation
+            errs = errs[:1]
         if len(errs) != 1:
             continue
         e = errs[0]
